@@ -151,10 +151,54 @@ def setup():
                 headers = {bytes.fromhex(k).decode("latin-1"): bytes.fromhex(v).decode("latin-1")
                            for k, v in headers}
             b = result_body(res)
-            return (http.HTTPStatus(res["status"]), headers, None if b is None else io.BytesIO(b))
+            return (http.HTTPStatus(res["status"]), headers, None if b is None else body_stream(b, res.get("stream")))
 
     _state.update(ready=True, ScriptedHandler=ScriptedHandler, HttpServer=HttpServer,
                   create_http_server=create_http_server)
+
+
+class _PlainStream(io.RawIOBase):
+    """a stream without fileno / seek that hands out at most `chunk` bytes per read"""
+
+    def __init__(self, data, chunk):
+        self._data, self._pos, self._chunk = data, 0, chunk
+
+    def readable(self):
+        return True
+
+    def read(self, n=-1):
+        if n is None or n < 0:
+            n = len(self._data) - self._pos
+        n = min(n, self._chunk)
+        out = self._data[self._pos:self._pos + n]
+        self._pos += len(out)
+        return out
+
+
+def body_stream(b, kind):
+    """the handler's body object: the property speaks of 'the returned stream' — whatever kind of binary stream,
+    from its current position"""
+    if kind in (None, "bytesio"):
+        return io.BytesIO(b)
+    pre = b"PREAMBLE-ALREADY-CONSUMED\n" * 2
+    if kind == "bytesio_offset":
+        f = io.BytesIO(pre + b)
+        f.seek(len(pre))
+        return f
+    if kind in ("file", "file_offset"):
+        import tempfile
+        f = tempfile.TemporaryFile()
+        if kind == "file_offset":
+            f.write(pre)
+        f.write(b)
+        f.flush()
+        f.seek(0)
+        if kind == "file_offset":
+            f.read(len(pre))
+        return f
+    if kind == "plain":
+        return _PlainStream(b, 1000)
+    raise ValueError("unknown stream kind " + str(kind))
 
 
 def gen_body(g):
